@@ -202,6 +202,10 @@ def peers(pol=None):
     var('Key exchanges: strict-kex marker missing', kex_algorithms=nomark)
     var('Key exchanges: strict-kex marker missing, a foreign name present', kex_algorithms=nomark + ['foreign@example.com'])
     var('Key exchanges: the other role\'s strict-kex marker offered instead', kex_algorithms=nomark + [m for m in STRICT if m not in PEER['kex_algorithms']])
+    marks = [x for x in PEER['kex_algorithms'] if x in STRICT]
+    if len(marks) > 1:      # a policy listing both markers: each one stays mandatory on its own
+        for m in marks:
+            var('Key exchanges: only the strict-kex marker %s missing' % m, kex_algorithms=[x for x in PEER['kex_algorithms'] if x != m])
     for t, ent in PEER['host_keys'].items():
         for d in (+1024, -128, +1, -1):
             hk = copy.deepcopy(PEER['host_keys'])
@@ -246,6 +250,9 @@ def policies():
     p = copy.deepcopy(POLICY)
     p['_kex'] = ['curve25519-sha256', 'diffie-hellman-group-exchange-sha256', STRICT[1]]
     out.append(('a client policy (client strict-kex marker)', p))
+    p = copy.deepcopy(POLICY)
+    p['_kex'] = ['curve25519-sha256', 'diffie-hellman-group-exchange-sha256', STRICT[0], STRICT[1]]
+    out.append(('a policy listing both strict-kex markers', p))
     p = {k: None for k in POLICY}
     out.append(('empty policy', p))
     return out
